@@ -66,6 +66,10 @@ def run(m: Model, r: Report, tier: str) -> None:
     r.rule("R3", "NRC decision tables of the individual rules equal the ISO general server response behaviour", floor=8)
     r.rule("R4", "positive replies are suppressed iff the request is a sub-function request with the suppress bit; negative ones never; "
                  "state is updated before suppression", floor=3)
+    r.rule("R9", "well-formed requests reach the rules as typed requests: the request codec obligations (byte identity, suppress-bit independent routing, "
+           "round-trip guard) hold, so only genuinely malformed requests take the incorrect-format path", floor=1)
+    from sa.uds_rules import request_codec_obligations
+    request_codec_obligations(m, r, "R9", tier)
     r.rule("R5", "session / security state changes only under guards on the positive response classes ISO names; seed/key sequencing", floor=6)
 
     from sa.uds_rules import iso_tables
